@@ -319,52 +319,94 @@ func TestVerifC19Fields(t *testing.T) {
 		}
 	}
 
-	// dial timeout: one transport per (kind, configuration, reconfigured or not)
-	dialEvaluated := false
+	// dial timeout: one transport per (kind, configuration, reconfigured or not).  A verdict
+	// counts only when the process was not stalled while it was measured, and a transport is
+	// reported when it failed in two such rounds.
+	dialEvaluated, dialUnstable := false, false
 	addr, release := c19Saturated()
 	if addr != "" {
 		dialEvaluated = true
-		var wg sync.WaitGroup
-		for _, j := range dialJobs {
-			wg.Add(1)
-			go func(j c19DialJob) {
-				defer wg.Done()
-				dial := c19DialFn(j.tr)
-				if dial == nil {
-					return
-				}
-				bound := time.Duration(j.want.Dial)*time.Millisecond + c19Slack
-				done := make(chan error, 1)
-				t0 := time.Now()
-				go func() {
-					c, err := dial(context.Background(), "tcp", addr)
-					if c != nil {
-						c.Close()
-					}
-					done <- err
-				}()
-				select {
-				case err := <-done:
-					el := time.Since(t0)
-					ne, isNet := err.(net.Error)
-					switch {
-					case err == nil:
-						// the queue had room after all: nothing observed
-					case el > bound:
-						verifx.Fail(j.h, map[string]any{"sub": "dial", "kind": j.kind, "clause": "late"}, "%s transport: dial against a full accept queue gave up after %v, configured dial timeout %d ms", j.kind, el, j.want.Dial)
-					case !isNet || !ne.Timeout():
-						verifx.Emit(map[string]any{"kind": "note", "msg": "dial failed without timing out: " + err.Error()})
-					}
-				case <-time.After(bound + 2*time.Second):
-					verifx.Fail(j.h, map[string]any{"sub": "dial", "kind": j.kind, "clause": "no-timeout"}, "%s transport: dial against a full accept queue still pending after %v, configured dial timeout %d ms", j.kind, bound+2*time.Second, j.want.Dial)
-				}
-			}(j)
+		type verdict struct{ clause, msg string }
+		strikes := map[int]int{}
+		last := map[int]verdict{}
+		pending := make([]int, len(dialJobs))
+		for i := range pending {
+			pending[i] = i
 		}
-		wg.Wait()
+		valid := 0
+		for round := 0; round < 6 && len(pending) > 0 && valid < 2; round++ {
+			sw := verifx.WatchStalls()
+			res := make([]verdict, len(dialJobs))
+			var wg sync.WaitGroup
+			for _, i := range pending {
+				wg.Add(1)
+				go func(i int) {
+					defer wg.Done()
+					j := dialJobs[i]
+					dial := c19DialFn(j.tr)
+					if dial == nil {
+						return
+					}
+					bound := time.Duration(j.want.Dial)*time.Millisecond + c19Slack
+					type ret struct {
+						err error
+						el  time.Duration
+					}
+					done := make(chan ret, 1)
+					t0 := time.Now()
+					go func() {
+						c, err := dial(context.Background(), "tcp", addr)
+						el := time.Since(t0)
+						if c != nil {
+							c.Close()
+						}
+						done <- ret{err, el}
+					}()
+					select {
+					case r := <-done:
+						ne, isNet := r.err.(net.Error)
+						switch {
+						case r.err == nil:
+							// the queue had room after all: nothing observed
+						case r.el > bound:
+							res[i] = verdict{"late", fmt.Sprintf("%s transport: dial against a full accept queue gave up after %v, configured dial timeout %d ms", j.kind, r.el, j.want.Dial)}
+						case !isNet || !ne.Timeout():
+							verifx.Emit(map[string]any{"kind": "note", "msg": "dial failed without timing out: " + r.err.Error()})
+						}
+					case <-time.After(bound + 2*time.Second):
+						res[i] = verdict{"no-timeout", fmt.Sprintf("%s transport: dial against a full accept queue still pending after %v, configured dial timeout %d ms", j.kind, bound+2*time.Second, j.want.Dial)}
+					}
+				}(i)
+			}
+			wg.Wait()
+			if gap := sw.Stop(); gap > 200*time.Millisecond {
+				verifx.Emit(map[string]any{"kind": "note", "msg": fmt.Sprintf("dial round %d void: the process stalled for %v", round, gap)})
+				continue
+			}
+			valid++
+			var next []int
+			for _, i := range pending {
+				if res[i].clause != "" {
+					strikes[i]++
+					last[i] = res[i]
+					next = append(next, i)
+				}
+			}
+			pending = next
+		}
+		if len(pending) > 0 && valid < 2 {
+			dialUnstable = true
+		}
+		for i, n := range strikes {
+			if n >= 2 {
+				j := dialJobs[i]
+				verifx.Fail(j.h, map[string]any{"sub": "dial", "kind": j.kind, "clause": last[i].clause}, "%s", last[i].msg)
+			}
+		}
 	}
 	release()
 	verifx.Summary(map[string]any{"cases": len(hs), "builds": builds, "compared": compared, "distinct_nontrivial": nontrivial,
-		"keepalive_observed": kaSeen, "dial_evaluated": dialEvaluated, "dial_transports": len(dialJobs), "samples": samples})
+		"keepalive_observed": kaSeen, "dial_evaluated": dialEvaluated, "dial_unstable": dialUnstable, "dial_transports": len(dialJobs), "samples": samples})
 }
 
 func c19HistString(h c19History) string {
